@@ -221,7 +221,7 @@ func (c *Checker) apply(op Op) string {
 		_, existed := s.Nodes[op.N]
 		r := x.Apply(op)
 		inst := x.All[len(x.All)-1]
-		want := s.RegisterNode(op.N, inst, op.Pol)
+		want := s.RegisterNode(op.N, inst, op.EffPol())
 		if op.Reuse && existed && want {
 			c.Reused++
 		}
@@ -230,7 +230,7 @@ func (c *Checker) apply(op Op) string {
 		}
 		if !want {
 			c.Failed++
-			if existed && op.Pol != 3 && op.N != "" {
+			if existed && op.EffPol() != 3 && op.N != "" {
 				c.DenyHits++
 			}
 		}
@@ -241,7 +241,7 @@ func (c *Checker) apply(op Op) string {
 		k := PKey{eventlogger.EventType(op.ET), eventlogger.PipelineID(op.P)}
 		old, existed := s.Pipes[k]
 		r := x.Apply(op)
-		want := s.RegisterPipeline(op.ET, op.P, op.IDs, op.Pol, len(x.Hist))
+		want := s.RegisterPipeline(op.ET, op.P, op.IDs, op.EffPol(), len(x.Hist))
 		if want && existed {
 			c.Overwrites++
 		}
